@@ -79,7 +79,11 @@ struct Model {
       case OP_PUSH_TRACER: return st.ntracer < NTRC;
       case OP_POP_TRACER: return st.ntracer > 0;
       case OP_SET_REPORTER: return true;
-      case OP_ARM_REPORTER: return st.armed == 0 && st.obj_alive[op.obj];
+      case OP_ARM_REPORTER: {
+        // not while an end-of-life report is pending whose presence the statements leave open (see eol_report)
+        for (auto& e : st.e) if (e.alive && !e.is_monitor && e.soft_named && !e.reported) return false;
+        return st.armed == 0 && st.obj_alive[op.obj];
+      }
       case OP_ARM_OK: return st.armed_ok == 0;
     }
     return false;
@@ -229,7 +233,7 @@ struct Model {
     }
     if (best < 0) {
       Report r; r.fatal = true; r.kind = R_SEQMIS; r.slot = chosen; r.gen = st.repgen;
-      o.reps.push_back(r); soft_name_around(chosen);
+      o.reps.push_back(r); soft_name_around(chosen); st.armed = 0;   // the harness's armed reporter stands down at a sequence violation
       if (tracing) o.traces.push_back("?" + tr_prefix + "threw unknown exception");
       if (top) o.kind = OK_SEQMIS;
       return 2;
